@@ -629,12 +629,49 @@ pub fn bytes_json(b: &[u8]) -> Value {
 }
 
 pub fn bytes_from_json(v: &Value) -> Vec<u8> {
-    if let Some(h) = v["hex"].as_str() {
+    if let Some(runs) = v["rle"].as_array() {
+        let mut out = vec![];
+        for r in runs {
+            let piece = unhex(r[0].as_str().unwrap_or(""));
+            for _ in 0..r[1].as_u64().unwrap_or(1) {
+                out.extend_from_slice(&piece);
+            }
+        }
+        out
+    } else if let Some(h) = v["hex"].as_str() {
         unhex(h)
     } else if let Some(s) = v.as_str() {
         s.as_bytes().to_vec()
     } else {
         vec![]
+    }
+}
+
+/// Large inputs with long runs of one byte: `{"rle": [[hex piece, repeat count], ...], "len": n}`;
+/// falls back to plain hex when that is not shorter.
+pub fn bytes_json_rle(b: &[u8]) -> Value {
+    let mut runs: Vec<(Vec<u8>, u64)> = vec![];
+    let mut i = 0;
+    while i < b.len() {
+        let mut j = i;
+        while j < b.len() && b[j] == b[i] {
+            j += 1;
+        }
+        if j - i >= 16 {
+            runs.push((vec![b[i]], (j - i) as u64));
+        } else {
+            match runs.last_mut() {
+                Some((piece, 1)) => piece.extend_from_slice(&b[i..j]),
+                _ => runs.push((b[i..j].to_vec(), 1)),
+            }
+        }
+        i = j;
+    }
+    let cost: usize = runs.iter().map(|(p, _)| 2 * p.len() + 12).sum();
+    if cost < b.len() {
+        serde_json::json!({"rle": runs.iter().map(|(p, n)| serde_json::json!([hex(p), n])).collect::<Vec<_>>(), "len": b.len()})
+    } else {
+        serde_json::json!({"hex": hex(b), "len": b.len()})
     }
 }
 
